@@ -3,9 +3,14 @@
 Correspondence: a real lib.memory.Memory with a generated port set runs in the real simulator with two
 hand-driven clock domains "a" and "b"; after every event (new port inputs + the rising/falling of a set
 of clocks in ONE ctx.set, or a testbench row write ctx.set(mem.data[i], v)) the data of every read port is
-read back, at the end every row through ctx.get(mem.data[i]); compared with coq/Model/Mem.v run by vm_compute.
-`extra` additionally (Python only) checks the $meminit_v2/$memwr_v2/$memrd_v2 cells of rtlil.convert against
-the port configuration and exercises cross-domain write collisions (result must be one of the two values).
+read back IMMEDIATELY after that ctx.set (on half of the random cases every row through ctx.get(mem.data[i]) as well),
+at the end every row; compared with coq/Model/Mem.v run by vm_compute (k_mem2: the model derives widths, enable
+widths and the hypothesis ev_ok itself from the constructor arguments).
+Cases of kind "rtl": the same kind of design is converted by back.rtlil, the text read by harness/rtlil_read.py and
+run under the RTLIL semantics coq/Model/RtlilSem.v ($meminit_v2/$memrd_v2/$memwr_v2), compared with the simulator
+after every settle step.
+`extra` additionally (Python only) checks the $mem*_v2 cell parameters textually and exercises cross-domain write
+collisions (result must be one of the two values).
 
 Event encoding (two integers x y per event, see coq/Harness/RunC11.v):
   y odd : row write   ctx.set(mem.data[y >> 1], x)
@@ -20,43 +25,77 @@ ID = "C11"
 LEVEL = "proof"
 PROPS_FILE = "C11.v"
 RUN_MODULE = "RunC11"
-TRANSLATOR_UNITS = []
+TRANSLATOR_UNITS = ["pysim"]
 RULE = ("exhaustive: depth 2, width 1, one write + one read port (comb / sync / sync transparent), every input word "
         "(waddr, wdata, wen, raddr, ren) x (same) of two clock edges (thorough: also width 2 with two enable bits, transparent port); every single edge for depth in {0,1,2,3} x width "
         "{1,2} (quick: width 2 only with the transparent port) x granularity {None,1} x the three read-port kinds from a non-zero initial memory; "
-        "seeded random: shapes unsigned 1/2/4/6/8, signed 1/3/8, StructLayout(u3,s5) and ArrayLayout(u2,4)/(u4,2) rows on raw "
-        "bits, depth in {0,1,2,3,4,5,8}, 0-3 write x 0-3 read ports over two domains (posedge/negedge, with reset or "
+        "seeded random: shapes unsigned 0/1/2/4/6/8, signed 1/3/8, StructLayout(u3,s5), ArrayLayout(u2,4)/(u4,2), a 2-bit Enum "
+        "and a data.Struct with non-zero field defaults (rows and read data start at 245) on raw bits, aggregate "
+        "initialisers as from_bits / field mapping / element sequence, depth in {0,1,2,3,4,5,8}, 0-3 write x 0-3 read ports over two domains (posedge/negedge, with reset or "
         "reset-less), comb/sync read ports, every transparency subset in random order (sometimes with a repeated port), "
         "granularities dividing the width (elements for ArrayLayout), 10-40 events: inputs with hot rows, addresses beyond "
         "the depth, enable words 0/all/random, edges of a, b, both at once, none, reset levels, testbench row writes with "
         "out-of-range/negative values; simultaneous edges at which two write ports of different domains would write a "
         "common bit are generated and then separated (b's edge dropped) — they are exercised in `extra` instead; every fourth "
-        "random case is compared with the array SPECIFICATION machine (k_spec) instead of the simulator model (k_mem); "
+        "random case is compared with the array SPECIFICATION machine instead of the simulator model; on every second one all "
+        "rows are read through mem.data[i] after EVERY event; on every fifth the address of write port 0 is a register "
+        "counting the edges of its domain (design-driven port input); "
+        "`stale` family (150): 2-3 write ports on different rows, exactly one changing its row, the others idle or rewriting "
+        "the stored value, comb read ports on the changed row, nothing else changing in the delta cycle (a lost "
+        "'memory changed' flag leaves the comb port stale); "
+        "`rtl` family (160): random configurations (>= 1 write and read port, width, depth >= 1) without same-bit collisions of any "
+        "two write ports and with transparent reads kept inside the memory (both undefined in RTLIL), a preamble event that "
+        "gives every clocked read port a defined value, then 8-20 events as settle steps (inputs / edges / rest): emitted "
+        "RTLIL under Model/RtlilSem.v vs the simulator, every read port after every step; "
         "constructor arguments (granularity, depth, init length) compared on acceptance / exception class. "
-        "Compared: every read port's data after every event, all rows at the end. "
+        "Compared: [the model's own verdict that every event satisfies ev_ok = 1], every read port's data right after the "
+        "ctx.set carrying the edge, all rows at the end. "
         "non-trivial = the observed answer is not constant; distinct by case hash")
 MODELLED = ("pysim._PyMemoryState (read/write/commit with the write queue), the MemoryInstance part of "
             "_pyrtl._FragmentCompiler (write ports queued in port order with replicated enables, the `if rst:` block skipping read data signals, sync read "
             "ports with the transparency patch in transparent_for order, comb read ports), _pyeval row read/write, "
             "MemoryData.Init defaults/normalisation, WritePort.Signature's granularity rules, ceil_log2 are modelled by hand in "
             "coq/Model/Mem.v; validated only: Memory.elaborate -> MemoryInstance plumbing, the delta-cycle engine (processes of "
-            "both domains in one delta, commit, comb re-evaluation), data.View wrappers of aggregate rows, and the "
-            "$mem*_v2 cell parameters of back.rtlil (textual comparison in `extra`, no RTLIL semantics)")
+            "both domains in one delta, commit, comb re-evaluation), data.View wrappers of aggregate rows, and "
+            "the memory cells of back.rtlil (run under the hand-written RTLIL semantics Model/RtlilSem.v on the rtl family; "
+            "parameters also compared textually in `extra`)")
 ASSUMPTIONS = ["clock domains with synchronous reset or none (async_reset domains re-run the process on rst: finding F7)",
                "port inputs change only between edges (testbench sets inputs, then the clocks, then samples)",
                "at one simultaneous edge no two write ports of different domains write a common bit of one row "
-               "(S1: the surviving value depends on the process-set iteration order; hardware: undefined)"]
+               "(S1: the surviving value depends on the process-set iteration order; hardware: undefined)",
+               "RTLIL comparison only where RTLIL is defined: no two write ports on a common bit of a row (PRIORITY_MASK 0), "
+               "clocked read data compared after its first capture (INIT_VALUE x), transparent reads inside the memory"]
+TRUSTED_EXTRA = ["strict RTLIL reader harness/rtlil_read.py (text -> Gallina doc; fail-closed) for the rtl family"]
 SHARD = 720
 
 DEPTHS = [0, 1, 2, 3, 4, 5, 8]
 SHAPES = [["u", 1], ["u", 2], ["u", 4], ["u", 6], ["u", 8], ["s", 1], ["s", 3], ["s", 8], ["u", 0],
-          ["struct"], ["array", 2, 4], ["array", 4, 2]]
+          ["struct"], ["array", 2, 4], ["array", 4, 2], ["enum"], ["dstruct"]]
 EXC = {"ValueError": 1, "TypeError": 2}
 
 
 # ------------------------------------------------------------------------------------------ shapes / config helpers
 def _width(sh):
-    return {"u": lambda: sh[1], "s": lambda: sh[1], "struct": lambda: 8, "array": lambda: sh[1] * sh[2]}[sh[0]]()
+    """raw width (used only to GENERATE in-range stimulus and to pack observations; the model computes its own)"""
+    return {"u": lambda: sh[1], "s": lambda: sh[1], "struct": lambda: 8, "array": lambda: sh[1] * sh[2],
+            "enum": lambda: 2, "dstruct": lambda: 8}[sh[0]]()
+
+
+def _dflt(sh):
+    """raw value of shape.const(None): 0 for layouts and enumerations (EnumType.const(None) is the member 0); the
+    data.Struct below declares field defaults a = 5, b = -2, i.e. 5 | (-2 & 31) << 3"""
+    return 245 if sh[0] == "dstruct" else 0
+
+
+def _rowshape(sh):
+    """Gallina rowshape: the arguments the user passes, not the derived widths"""
+    if sh[0] in ("u", "s"):
+        return f"(RSPlain (Sh {sh[1]} {blit(sh[0] == 's')}))"
+    if sh[0] in ("struct", "dstruct"):
+        return "(RSStruct [Sh 3 false; Sh 5 true])"
+    if sh[0] == "enum":
+        return "(RSPlain (Sh 2 false))"
+    return f"(RSArray (Sh {sh[1]} false) {sh[2]})"
 
 
 def _signed(sh):
@@ -78,7 +117,7 @@ def _abits(depth):
 
 
 def _grans(sh):
-    if sh[0] in ("s", "struct"):
+    if sh[0] in ("s", "struct", "enum", "dstruct"):
         return [None]
     n = sh[2] if sh[0] == "array" else sh[1]
     return [None] + [g for g in range(1, n + 1) if n % g == 0]
@@ -162,7 +201,7 @@ def _rand_cfg(rng):
     w = _width(sh)
     lo, hi = (-(1 << max(w - 1, 0)), 1 << max(w - 1, 0)) if _signed(sh) else (0, 1 << w)
     ninit = rng.randrange(0, depth + 1)
-    if sh[0] in ("struct", "array") or rng.random() < 0.8:
+    if sh[0] in ("struct", "array", "enum", "dstruct") or rng.random() < 0.8:
         init = [rng.randrange(lo, hi) for _ in range(ninit)]
     else:
         init = [rng.randrange(-300, 300) for _ in range(ninit)]           # out of range: normalised by Init
@@ -171,8 +210,13 @@ def _rand_cfg(rng):
             "neg": [int(rng.random() < 0.15), int(rng.random() < 0.3)]}
 
 
-def _rand_events(rng, c, n):
+def _rand_events(rng, c, n, rtl=False):
+    """rtl: histories for the RTLIL comparison — no testbench row writes (not expressible), and no two write ports
+    writing a common bit of one row at all (PRIORITY_MASK 0: undefined in RTLIL), the later port is idled instead.
+    c["drv"]: the address of write port 0 is not a testbench input but a register counting the edges of its domain;
+    the stream carries the value the register has before each edge."""
     depth, w = c["depth"], _width(c["shape"])
+    cnt = 0
     ab = _abits(depth)
     hot = [rng.randrange(0, max(depth, 1)) for _ in range(2)]
     two = any(p["dom"] == 1 for p in c["wports"] + c["rports"])
@@ -183,7 +227,7 @@ def _rand_events(rng, c, n):
     t = 0
     while len(evs) < 2 * n:
         t += 1
-        if depth > 0 and rng.random() < 0.1:
+        if depth > 0 and not rtl and rng.random() < 0.1:
             i = rng.randrange(depth)
             v = rng.choice([rng.randrange(0, 1 << w), rng.randrange(-(1 << w), 1 << (w + 2)), -1, 0])
             evs += [v, 1 | i << 1]
@@ -209,6 +253,19 @@ def _rand_events(rng, c, n):
         for j, p in enumerate(c["rports"]):
             if rng.random() < 0.8:
                 rins[j] = (addr(), int(rng.random() < 0.75))
+        if c.get("drv"):
+            wins[0] = (cnt, wins[0][1], wins[0][2])
+        if rtl:
+            # a transparent read beyond the depth is undefined in RTLIL (and unspecified by the property); the simulator
+            # forwards the write data of a same-address port there, RtlilSem reads 0: keep such reads inside the memory
+            for j, p in enumerate(c["rports"]):
+                if p["transp"] and (rins[j][0] & ((1 << ab) - 1)) >= depth:
+                    rins[j] = ((rins[j][0] & ((1 << ab) - 1)) % depth, rins[j][1])
+            for j in range(len(wins)):
+                for i in range(j):
+                    ai, aj = wins[i][0] & ((1 << ab) - 1), wins[j][0] & ((1 << ab) - 1)
+                    if ai == aj and ai < depth and _en_mask(c, i, wins[i][2]) & _en_mask(c, j, wins[j][2]):
+                        wins[j] = (wins[j][0], wins[j][1], 0)
         r = rng.random()
         if two:
             doms = (1, 0) if r < 0.3 else (0, 1) if r < 0.55 else (1, 1) if r < 0.9 else (0, 0)
@@ -220,7 +277,51 @@ def _rand_events(rng, c, n):
             c["sep"] = c.get("sep", 0) + 1
             doms = (1, 0)
         evs += _pack_ev(c, doms, rsts, wins, rins)
+        if c.get("drv") and doms[c["wports"][0]["dom"]]:
+            cnt = 0 if rsts[c["wports"][0]["dom"]] else (cnt + 1) & ((1 << ab) - 1)
     return evs
+
+
+def _stale_cases(rng, n):
+    """histories on which a comb read port must follow a write although nothing else changes in that delta cycle:
+    2-3 write ports (each queues a write every edge), exactly one of them changing its row, the others idle (en = 0)
+    or rewriting the stored value on OTHER rows, comb read ports on the changed row, sync read ports disabled."""
+    out = []
+    for _ in range(n):
+        w = rng.choice([4, 8])
+        depth = rng.choice([3, 4, 5, 8])
+        nw = rng.choice([2, 2, 3])
+        two = rng.random() < 0.3
+        c = {"k": "run", "g": "stale", "shape": ["u", w], "depth": depth, "init": [rng.randrange(1 << w) for _ in range(depth)],
+             "wports": [{"dom": rng.randrange(2) if two else 0, "gran": None} for _ in range(nw)],
+             "rports": [{"dom": -1, "transp": []} for _ in range(rng.choice([1, 2]))] +
+                       ([{"dom": 0, "transp": []}] if rng.random() < 0.3 else []),
+             "rl": [1, 1], "neg": [0, 0]}
+        rows = list(c["init"])
+        evs = []
+        for _ in range(rng.randrange(8, 16)):
+            k = rng.randrange(nw)
+            perm = list(range(depth))
+            rng.shuffle(perm)
+            wins = []
+            for j in range(nw):
+                r = perm[j % depth]
+                if j == k:
+                    wins.append((r, (rows[r] + 1 + rng.randrange((1 << w) - 1)) % (1 << w), 1))
+                elif rng.random() < 0.5:
+                    wins.append((r, rng.randrange(1 << w), 0))
+                else:
+                    wins.append((r, rows[r], 1))
+            rins = [(perm[k % depth] if rng.random() < 0.8 else rng.randrange(depth), 0 if p["dom"] >= 0 else 1)
+                    for p in c["rports"]]
+            doms = (1, 1) if two else (1, 0)
+            ev = {"doms": doms, "rsts": (0, 0), "wins": wins, "rins": rins}
+            assert not _cross_collision(c, ev)
+            evs += _pack_ev(c, doms, (0, 0), wins, rins)
+            rows[wins[k][0]] = wins[k][1]
+        c["evs"] = evs
+        out.append(c)
+    return out
 
 
 def _exhaustive(thorough):
@@ -278,14 +379,30 @@ def gen_cases(tier, seed):
     rng = random.Random(seed)
     thorough = tier == "thorough"
     cases = _exhaustive(thorough) + _ctor_cases()
-    n_rand = 12000 if thorough else 1600
+    n_rand = 12000 if thorough else 1500
     rnd = []
     for i in range(n_rand):
         c = _rand_cfg(rng)
+        if i % 5 == 1 and c["wports"] and _abits(c["depth"]) > 0:
+            c["drv"] = 1                       # write port 0 addressed by a register of its own domain
         c["evs"] = _rand_events(rng, c, rng.randrange(10, 60 if thorough else 40))
         c["g"] = "rand"
         if i % 4 == 3:
             c["spec"] = 1
+        if i % 2 == 0:
+            c["rr"] = 1                        # every row read through mem.data[i] after EVERY event
+        rnd.append(c)
+    rnd += _stale_cases(rng, 1200 if thorough else 150)
+    for i in range(1500 if thorough else 160):  # the emitted RTLIL run under Model/RtlilSem.v
+        while True:
+            c = _rand_cfg(rng)
+            if _width(c["shape"]) > 0 and c["depth"] > 0 and c["rports"] and c["wports"]:  # (the reader rejects the 0-bit masks of a ROM)
+                break
+        c["k"], c["g"] = "rtl", "rtl"
+        used = {p["dom"] for p in c["wports"]} | {p["dom"] for p in c["rports"] if p["dom"] >= 0}
+        pre = _pack_ev(c, (int(0 in used), int(1 in used)), (0, 0), [(0, 0, 0)] * len(c["wports"]),
+                       [(0, 1)] * len(c["rports"]))
+        c["evs"] = pre + _rand_events(rng, c, rng.randrange(8, 30 if thorough else 20), rtl=True)
         rnd.append(c)
     # interleave the long random cases with the small ones so that shards are balanced
     out = []
@@ -310,7 +427,43 @@ def _mk_shape(sh):
         return signed(sh[1])
     if sh[0] == "struct":
         return data.StructLayout({"a": unsigned(3), "b": signed(5)})
+    if sh[0] == "enum":
+        return _enum_shape()
+    if sh[0] == "dstruct":
+        return _dstruct_shape()
     return data.ArrayLayout(unsigned(sh[1]), sh[2])
+
+
+_ENUM = []
+_DSTRUCT = []
+
+
+def _dstruct_shape():
+    """a data.Struct with non-zero field defaults: rows not initialised and the read data signals start at 245"""
+    if not _DSTRUCT:
+        from amaranth.hdl import unsigned, signed
+        from amaranth.lib import data
+
+        class RowRec(data.Struct):
+            a: unsigned(3) = 5
+            b: signed(5) = -2
+        _DSTRUCT.append(RowRec)
+    return _DSTRUCT[0]
+
+
+def _enum_shape():
+    """a 2-bit enumeration (all four values are members; the first one is not 0, the default still is)"""
+    if not _ENUM:
+        from amaranth.hdl import unsigned
+        from amaranth.lib import enum
+
+        class RowKind(enum.Enum, shape=unsigned(2)):
+            A = 2
+            B = 0
+            C = 1
+            D = 3
+        _ENUM.append(RowKind)
+    return _ENUM[0]
 
 
 def _build(c):
@@ -325,12 +478,26 @@ def _build(c):
         cds.append(cd)
     init = c["init"]
     if isinstance(shape, ShapeCastable):
-        init = [shape.from_bits(v) for v in init]
+        sh = c["shape"]
+
+        def sx(v, w):
+            return v - (1 << w) if v >> (w - 1) else v
+        if sh[0] in ("struct", "dstruct") and len(init) % 2:       # field mapping instead of from_bits
+            init = [{"a": v & 7, "b": sx((v >> 3) & 31, 5)} for v in init]
+        elif sh[0] == "array" and len(init) % 2:                   # element sequence
+            init = [[(v >> (sh[1] * k)) & ((1 << sh[1]) - 1) for k in range(sh[2])] for v in init]
+        else:
+            init = [shape.from_bits(v) for v in init]
     mem = Memory(shape=shape, depth=c["depth"], init=init)
     m.submodules.mem = mem
     wps = [mem.write_port(domain="ab"[p["dom"]], granularity=p["gran"]) for p in c["wports"]]
     rps = [mem.read_port(domain="comb" if p["dom"] < 0 else "ab"[p["dom"]],
                          transparent_for=[wps[j] for j in p["transp"]]) for p in c["rports"]]
+    if c.get("drv"):
+        from amaranth.hdl import Signal
+        cnt = Signal(len(wps[0].addr), name="cnt")
+        m.d["ab"[c["wports"][0]["dom"]]] += cnt.eq(cnt + 1)
+        m.d.comb += wps[0].addr.eq(cnt)
     return m, cds, mem, wps, rps
 
 
@@ -351,6 +518,7 @@ def _simulate(c):
     clks = Cat(cds[0].clk, cds[1].clk)
     rdata = [Value.cast(p.data) for p in rps]
     wdata = [Value.cast(p.data) for p in wps]
+    rowvals = [Value.cast(mem.data[i]) for i in range(c["depth"])]
 
     async def tb(ctx):
         last = {}
@@ -367,7 +535,8 @@ def _simulate(c):
                 ctx.set(Value.cast(mem.data[i]), v)
             else:
                 for j, (a, d, e) in enumerate(ev["wins"]):
-                    put(wps[j].addr, a)
+                    if not (j == 0 and c.get("drv")):
+                        put(wps[j].addr, a)
                     put(wdata[j], d)
                     put(wps[j].en, e)
                 for j, (a, e) in enumerate(ev["rins"]):
@@ -380,24 +549,151 @@ def _simulate(c):
                 if ev["doms"] != (0, 0):
                     lv = [idle[i] ^ ev["doms"][i] for i in range(2)]
                     ctx.set(clks, lv[0] | lv[1] << 1)
-                    ctx.set(clks, idle[0] | idle[1] << 1)
+            # observed right after the ctx.set that carries the active edge (nothing in between: a comb read port
+            # that the engine left un-run would be seen stale here); the clocks return to rest afterwards
             acc = 0
             for j, sig in enumerate(rdata):
                 acc |= _enc(c, ctx.get(sig)) << (8 * j)
             trace.append(acc)
-        for i in range(c["depth"]):
-            rows.append(_enc(c, ctx.get(Value.cast(mem.data[i]))))
+            if c.get("rr"):
+                trace.extend(_pack_rows([_enc(c, ctx.get(r)) for r in rowvals]))
+            if "tb" not in ev and ev["doms"] != (0, 0):
+                ctx.set(clks, idle[0] | idle[1] << 1)
+        for r in rowvals:
+            rows.append(_enc(c, ctx.get(r)))
 
     sim = Simulator(m)
     sim.add_testbench(tb)
     sim.run()
-    out = list(trace)
+    # leading 1: the generator claims that every event satisfies ev_ok; the model computes that flag itself
+    return [1] + list(trace) + _pack_rows(rows)
+
+
+def _pack_rows(rows):
+    out = []
     for i in range(0, len(rows), 4):
         acc = 0
         for j, v in enumerate(rows[i:i + 4]):
             acc |= v << (8 * j)
         out.append(acc)
     return out
+
+
+# ------------------------------------------------------------------------------------------ emitted RTLIL under RtlilSem
+def _build_rtl(c):
+    """the design of case c behind uniquely named top-level signals (inputs drive the ports through comb
+    assignments, read data is copied to outputs). Returns (m, clocks/resets/inputs as (name, signal, init), outputs)"""
+    from amaranth.hdl import Signal, Value
+    m, cds, mem, wps, rps = _build(c)
+    used = {p["dom"] for p in c["wports"]} | {p["dom"] for p in c["rports"] if p["dom"] >= 0}
+    ins, outs = [], []
+    for j, wp in enumerate(wps):
+        for nm, tgt in (("addr", wp.addr), ("data", Value.cast(wp.data)), ("en", wp.en)):
+            if len(tgt):
+                sig = Signal(len(tgt), name=f"w{j}_{nm}")
+                m.d.comb += tgt.eq(sig)
+                ins.append((f"w{j}_{nm}", sig))
+    for j, (rp, pc) in enumerate(zip(rps, c["rports"])):
+        if len(rp.addr):
+            sig = Signal(len(rp.addr), name=f"r{j}_addr")
+            m.d.comb += rp.addr.eq(sig)
+            ins.append((f"r{j}_addr", sig))
+        if pc["dom"] >= 0:
+            sig = Signal(1, name=f"r{j}_en")
+            m.d.comb += rp.en.eq(sig)
+            ins.append((f"r{j}_en", sig))
+        o = Signal(len(Value.cast(rp.data)), name=f"r{j}_data")
+        m.d.comb += o.eq(Value.cast(rp.data))
+        outs.append((f"r{j}_data", o))
+    return m, cds, used, ins, outs
+
+
+def _rtl_steps(c, used):
+    """the stimulus as settle steps: per event the data inputs (+ resets), then the active edges, then the clocks back
+    at rest. Each step is a list of (name, value)."""
+    idle = [1 if c["neg"][i] else 0 for i in range(2)]
+    steps = []
+    for ev in _events(c):
+        a = []
+        for j, (ad, d, e) in enumerate(ev["wins"]):
+            a += [(f"w{j}_addr", ad), (f"w{j}_data", d), (f"w{j}_en", e)]
+        for j, (ad, e) in enumerate(ev["rins"]):
+            a += [(f"r{j}_addr", ad), (f"r{j}_en", e)]
+        for i in range(2):
+            if not c["rl"][i] and i in used:
+                a.append((f"{'ab'[i]}_rst", ev["rsts"][i]))
+        steps.append(a)
+        if any(ev["doms"][i] for i in used):
+            steps.append([(f"{'ab'[i]}_clk", idle[i] ^ ev["doms"][i]) for i in sorted(used)])
+            steps.append([(f"{'ab'[i]}_clk", idle[i]) for i in sorted(used)])
+    return steps
+
+
+def _simulate_rtl(c):
+    """the simulator on the same design and settle steps: [0, read data...] after the start and after every step"""
+    from amaranth.hdl import Cat
+    from amaranth.sim import Simulator
+    m, cds, used, ins, outs = _build_rtl(c)
+    sigs = dict(ins)
+    for i in used:
+        sigs[f"{'ab'[i]}_clk"] = cds[i].clk
+        if cds[i].rst is not None:
+            sigs[f"{'ab'[i]}_rst"] = cds[i].rst
+    out = []
+
+    async def tb(ctx):
+        for i in sorted(used):
+            if c["neg"][i]:
+                ctx.set(cds[i].clk, 1)
+        out.extend([0] + [ctx.get(o) for _, o in outs])
+        for st in _rtl_steps(c, used):
+            if st and st[0][0].endswith("_clk"):          # all clocks of the step in ONE ctx.set
+                ctx.set(Cat(sigs[nm] for nm, _ in st), sum(v << k for k, (_, v) in enumerate(st)))
+            else:
+                for nm, v in st:
+                    if nm in sigs:
+                        ctx.set(sigs[nm], v)
+            out.extend([0] + [ctx.get(o) for _, o in outs])
+    sim = Simulator(m)
+    sim.add_testbench(tb)
+    sim.run()
+    return out[RTL_SKIP * (1 + len(outs)):]
+
+
+# rtl cases start with a preamble event (every sync read port enabled on row 0, every used clock ticks, no write):
+# before it the data of a clocked read port is undefined in RTLIL (INIT_VALUE x; RtlilSem picks 0, the simulator has
+# the signal's init). The rows of the start and of the preamble's three settle steps are not compared.
+RTL_SKIP = 4
+
+
+def _rtl_term(c):
+    import rtlil_read as R
+    from amaranth.back import rtlil
+    m, cds, used, ins, outs = _build_rtl(c)
+    ports = [s for _, s in ins] + [o for _, o in outs]
+    widths = {nm: len(s) for nm, s in ins}
+    inits = {nm: 0 for nm, _ in ins}
+    for i in sorted(used):
+        ports.append(cds[i].clk)
+        widths[f"{'ab'[i]}_clk"], inits[f"{'ab'[i]}_clk"] = 1, (1 if c["neg"][i] else 0)
+        if cds[i].rst is not None:
+            ports.append(cds[i].rst)
+            widths[f"{'ab'[i]}_rst"], inits[f"{'ab'[i]}_rst"] = 1, 0
+    mods = R.parse(rtlil.convert(m, ports=ports))
+    top = mods[0]
+
+    def wire(nm, kind):
+        wn = "\\" + nm
+        if wn not in top.windex or top.wires[top.windex[wn]].kind != kind:
+            raise R.RtlilError(f"top module has no {kind} port {nm}")
+        return top.windex[wn]
+    obs = "[" + "; ".join(f"Some ([], {wire(nm, 'output')}%nat, {len(o)})" for nm, o in outs) + "]"
+    init_ins = "[" + "; ".join(f"({wire(nm, 'input')}%nat, {inits[nm]})" for nm in widths) + "]"
+    steps = []
+    for st in _rtl_steps(c, used):
+        steps.append("[" + "; ".join(f"({wire(nm, 'input')}%nat, {v & ((1 << widths[nm]) - 1)})"
+                                     for nm, v in st if nm in widths) + "]")
+    return f"k_rtl {RTL_SKIP * (1 + len(outs))}\n {R.coq_doc(mods)}\n {obs}\n {init_ins}\n [" + ";\n  ".join(steps) + "]"
 
 
 def run_impl(c):
@@ -415,27 +711,29 @@ def run_impl(c):
         except Exception as e:
             return [EXC.get(type(e).__name__, 99)]
     try:
-        return _simulate(c)
+        return _simulate_rtl(c) if c["k"] == "rtl" else _simulate(c)
     except Exception as e:
         return [-1, sum(map(ord, type(e).__name__))]
 
 
 # ------------------------------------------------------------------------------------------ model side
-def _md(c):
-    sh = c["shape"]
-    wps = "; ".join(f"WP {p['dom']} {_enw(sh, p['gran'])}" for p in c["wports"])
-    rps = "; ".join("RP {} [{}] 0".format("None" if p["dom"] < 0 else f"(Some {p['dom']})",
-                                          "; ".join(f"{j}%nat" for j in p["transp"])) for p in c["rports"])
-    return f"(MD (Sh {_width(sh)} {blit(_signed(sh))}) {z(c['depth'])} [{wps}] [{rps}])"
-
-
 def coq_term(c):
     if c["k"] == "ctor":
         sh = c["shape"]
         g = "None" if c["gran"] is None else f"(Some {z(c['gran'])})"
         return f"k_ctor (Sh {_width(sh)} {blit(_signed(sh))}) {z(c['depth'])} {zlist(c['init'])} {g}"
-    fn = "k_spec" if c.get("spec") else "k_mem"
-    return f"{fn} {_md(c)} {zlist(c['init'])} {zlist(c['evs'])}"
+    if c["k"] == "rtl":
+        try:
+            return _rtl_term(c)
+        except Exception as e:          # never dropped: an unreadable document shows up as a mismatch
+            return f"[-3; {sum(map(ord, type(e).__name__))}]"
+    sh = c["shape"]
+    wps = "; ".join("({}, {})".format(p["dom"], "None" if p["gran"] is None else f"Some {p['gran']}") for p in c["wports"])
+    rps = "; ".join("RP {} [{}] {}".format("None" if p["dom"] < 0 else f"(Some {p['dom']})",
+                                           "; ".join(f"{j}%nat" for j in p["transp"]), _dflt(sh)) for p in c["rports"])
+    flags = (1 if c.get("spec") else 0) | (2 if c.get("rr") else 0)
+    return (f"k_mem2 {flags} {_rowshape(sh)} {z(c['depth'])} [{wps}] [{rps}] {_dflt(sh)} "
+            f"{zlist(c['init'])} {zlist(c['evs'])}")
 
 
 def classify(c):
@@ -443,7 +741,8 @@ def classify(c):
         return "ctor"
     if c["g"] != "rand":
         return c["g"]
-    return f"rand{'-spec' if c.get('spec') else ''}:{c['shape'][0]}{_width(c['shape'])}:d{c['depth']}"
+    tag = ("-spec" if c.get("spec") else "") + ("-drv" if c.get("drv") else "") + ("-rr" if c.get("rr") else "")
+    return f"rand{tag}:{c['shape'][0]}{_width(c['shape'])}:d{c['depth']}"
 
 
 def nontrivial(c, obs):
@@ -455,22 +754,30 @@ def nontrivial(c, obs):
 def explain(c):
     if c["k"] == "ctor":
         return "answer: [0, len(en), len(addr)] accepted / [1] ValueError / [2] TypeError"
-    return ("evs: two integers x y per event (module docstring); answer: per event sum_j enc(read data j) << 8j, then the rows "
-            "four per integer (enc v = v + 2^(w-1) for signed rows); props.c11._events(case) decodes the stimulus")
+    if c["k"] == "rtl":
+        return ("answer: [status 0, read data of every read port (raw bits)] after the start and after every settle step of "
+                "props.c11._rtl_steps(case, used domains): inputs, active edges, clocks back at rest; model side = the "
+                "emitted RTLIL run under coq/Model/RtlilSem.v")
+    return ("evs: two integers x y per event (module docstring); answer: [1 = every event satisfies ev_ok], per event "
+            "sum_j enc(read data j) << 8j (read right after the edge; with rr=1 followed by all rows, four per integer), "
+            "then the rows at the end (enc v = v + 2^(w-1) for signed rows); props.c11._events(case) decodes the stimulus")
 
 
 def shrink(c, obs, model):
-    if c["k"] != "run" or len(obs) != len(model):
+    if c["k"] != "run" or len(obs) != len(model) or obs[0] != model[0]:
         return c, obs, model
     n = len(c["evs"]) // 2
-    k = next((i for i, (a, b) in enumerate(zip(obs, model)) if a != b), None)
-    if k is None or k >= n:
+    per = 1 + ((c["depth"] + 3) // 4 if c.get("rr") else 0)
+    i = next((i for i, (a, b) in enumerate(zip(obs, model)) if a != b), None)
+    if i is None or (i - 1) // per >= n:
         return c, obs, model
+    k = (i - 1) // per
+    keep = 1 + per * (k + 1)
     c2 = dict(c, evs=c["evs"][:2 * (k + 1)])
     obs2 = run_impl(c2)
-    if obs2[:k + 1] != obs[:k + 1]:
+    if obs2[:keep] != obs[:keep]:
         return c, obs, model
-    return c2, obs2, model[:k + 1] + obs2[k + 1:]      # rows of the truncated run are not known from the model answer
+    return c2, obs2, model[:keep] + obs2[keep:]      # rows of the truncated run are not known from the model answer
 
 
 # ------------------------------------------------------------------------------------------ RTLIL cells, collisions, coverage
@@ -564,7 +871,7 @@ def _xcoll(rng):
     c["k"] = "run"
     obs = _simulate(c)
     rows = []
-    for v in obs[1:]:
+    for v in obs[2:]:                              # [flag, the event's read data (no read ports: 0), rows...]
         rows += [(v >> (8 * j)) & 255 for j in range(4)]
     rows = rows[:depth]
     others = all(rows[i] == (i + 1) % (1 << w) for i in range(depth) if i != row)
@@ -636,6 +943,11 @@ def extra(tier, seed, findings):
                     hit = [x for x in act if x[0] in p["transp"] and x[2] == a]
                     st["transparent_read_hits"] += bool(e and hit)
                     st["nontransparent_read_write_same_row"] += bool(e and any(x[2] == a and x[0] not in p["transp"] for x in act))
+    allc = gen_cases(tier, seed)
+    st["stale_family_cases"] = sum(1 for c in allc if c.get("g") == "stale")
+    st["rtl_family_cases"] = sum(1 for c in allc if c.get("g") == "rtl")
+    st["row_reads_after_every_event_cases"] = sum(1 for c in cases if c.get("rr"))
+    st["design_driven_address_cases"] = sum(1 for c in cases if c.get("drv"))
     st["port_set_shapes"] = len({(len(c["wports"]), len(c["rports"])) for c in cases})
     st["transparency_sets"] = len({(len(c["wports"]), tuple(p["transp"])) for c in cases for p in c["rports"]})
     # RTLIL cell parameters
